@@ -468,7 +468,7 @@ def scenario_robust(exe, mode_arg, payload):
     without a package) + a tree of 150 annotated files + (8 times) a tree of 120 files in 8 crates with one unparsable file among them, each run with a 15 s time limit: the tool must exit 0, or non-zero with a
     diagnostic; it must never panic, abort or hang."""
     if mode_arg == 'check':
-        m = robust_case(exe, payload['input_name'], payload['lang'])
+        m = stdout_pipe_case(exe) if payload['input_name'] == 'stdout_pipe' else robust_case(exe, payload['input_name'], payload['lang'])
         if m:
             witness(payload, m)
         print('input passes'); return
@@ -481,7 +481,10 @@ def scenario_robust(exe, mode_arg, payload):
             m = robust_case(exe, name, lang)
             if m:
                 witness({'input_name': name, 'lang': lang, 'source': ROBUST.get(name, '150 files, one annotated struct each')}, m)
-    print('no failing input among %d (edge input, language) runs' % n)
+    m = stdout_pipe_case(exe)
+    if m:
+        witness({'input_name': 'stdout_pipe'}, 'the tool did not terminate: ' + m)
+    print('no failing input among %d (edge input, language) runs + output to a pipe' % n)
 
 
 # ------------------------------------------------------------------------------------------------ C08: unsupported constructs
